@@ -214,6 +214,8 @@ func runEntry(prog *ssa.Program, fn *ssa.Function, o runOpts) *runResult {
 		ex.Steps += o.Steps
 		ex.Merges += o.Merges
 		ex.ExactRechecks += o.ExactRechecks
+		ex.AbsDecided += o.AbsDecided
+		ex.SimpDecided += o.SimpDecided
 		ex.PathsWithAsserts += o.PathsWithAsserts
 		ex.Viol = append(ex.Viol, o.Viol...)
 		res.queries += o.solver.Queries
